@@ -258,11 +258,7 @@ def run_sequences(ctx, res, probe, probe_asan, model, env, sessions=None, ex_scr
     else:
         scripts = []
         for r in ex_scripts:
-            out = vlib.run_ex(vi, vlib.unhx(r['ex_script']), files={'f': vlib.unhx(r['file'])}, args=['f'], readback=['f'], timeout=60)
-            res.evaluations += 1
-            if out.crashed():
-                res.violation({'what': 'the editor crashed or hung on a replayed ex script (rc=%s)' % out.rc, 'input': [r], 'observed': out.err[-1200:].decode('utf-8', 'replace')})
-            res.sample({'replayed_ex_script': r.get('script_text'), 'buffer': (out.files.get('f') or b'').decode('utf-8', 'replace')})
+            relib.replay_ex_item(res, vi, r)
     if scripts:
         relib.check_ex_sequences(res, vi, probe, model, scripts, env=env)
     if ex_scripts is None:
